@@ -197,6 +197,37 @@ fn check_lunation(ctx: &Ctx, civ: &Civil, t: &LunTable, i: usize, loc: &mut Loca
       }
     }
   }
+  // LunarHour::next across the day border, from the first and the last day of the lunation (a leap month keeps its sign)
+  // (not in the reform-era lunar years 7..26 / 235..241: LunarDay stepping there is already recorded under K-C02-*)
+  for &day in &[1usize, l.days as usize] {
+    if (7..=26).contains(&l.y) || (235..=241).contains(&l.y) {
+      break;
+    }
+    for &(hh, n) in &[(22usize, 1isize), (1, -1), (12, 12), (12, -12)] {
+      let o = ord0 + day as i64 - 1;
+      let tgt = o + if n > 0 { 1 } else { -1 };
+      if o < 1 || tgt < 1 || o as usize >= civ.len() - 1 || tgt as usize >= civ.len() - 1 {
+        continue;
+      }
+      loc.transitions += 1;
+      let res = guard(|| {
+        let h = tyme4rs::tyme::lunar::LunarHour::from_ymd_hms(l.y as isize, l.m as isize, day, hh, 0, 0).next(n);
+        let ld = h.get_lunar_day();
+        let direct = mk(civ.date(tgt as usize)).get_lunar_day();
+        (ymd_of(&ld.get_solar_day()), ld == direct, ymd_of(&h.get_solar_time().get_solar_day()))
+      });
+      let key = format!("{}-{:02} {}h n={:+}", l.key(), day, hh, n);
+      let rp = vec!["lunar".to_string(), l.y.to_string(), l.m.to_string(), day.to_string()];
+      match res {
+        Ok((sd, same, sd2)) => {
+          if sd != civ.date(tgt as usize) || !same || sd2 != civ.date(tgt as usize) {
+            ctx.violation("lunar_next", key, format!("LunarHour {}:00 .next({}) is on lunar day of civil {} / solar time on {} (same label as direct conversion: {}), model = {}", hh, n, fmt_ymd(sd), fmt_ymd(sd2), same, fmt_ymd(civ.date(tgt as usize))), rp);
+          }
+        }
+        Err(m) => ctx.violation("lunar_next", key, format!("LunarHour.next panics: {}", m), rp),
+      }
+    }
+  }
   // non-existent leap months of this year are refused (once per year, on the year's first month)
   if l.m == 1 {
     let leap = t.leap[l.y as usize] as isize;
